@@ -77,6 +77,8 @@ claimed = {
          "bounds as stated; request streams, stream writers, size-mismatching streams, reset/release without a write outside", "§0 C34"),
  "C35": ("temporary-file half on the real serve loop with the two calls into mime/multipart stubbed (a parsed form stands for one temporary file, RemoveAll removes it): for pre-parsed and on-demand parsing, well-formed and malformed forms, and handlers that ignore, use or remove the form, nothing is left when the next request is dispatched or the connection is done",
          "round-trip half (mime/multipart + os) outside; stubs are part of the claim", "§0 C35"),
+ "C38": ("the real PipelineClient on the engine's scheduler with a virtual clock against a reactive server that answers, stalls, answers late or closes: every DoTimeout call returns by its deadline with its own response, ErrTimeout or a connection error, a call refused with ErrPipelineOverflow never had its request on the wire, and the queues stay bounded",
+         "virtual time and cooperative schedules (no real scheduling slack); MaxConns 1", "§0 C38"),
  "C40": ("one LBClient call from an arbitrary state with ≤3/≤5 fake clients (symbolic pending, total, penalty ≤ maxPenalty, outcome): routed to the (load, total)-minimal client, penalty step bounded by 300 and undone after 3 s of virtual time; no clients → ErrNoAvailableClients",
          "sequential one-step (inductive) only; concurrent calls outside", "§0 C40"),
  "C41": ("the real TCPDialer on the engine's scheduler with virtual time and a stubbed OS dialer: 3/4 concurrent DialTimeout calls with Concurrency ∈ {1,2} and endpoints that connect, refuse or hang never have more than Concurrency dials in progress, return by the timeout with a connection, the refusal, or ErrDialTimeout wrapped with the upstream address, and give every slot back; a host resolving to 2..3 addresses is dialled in rotation, each address at most once, a hanging one ends the attempt with ErrDialTimeout",
@@ -86,7 +88,6 @@ claimed = {
 na = {
  "C36": "the oracle is net/http's own server; differential behaviour of two full HTTP servers is outside bounded symbolic execution of this code",
  "C37": "data races are not representable in a sequentially consistent interpreter; a solver query over SSA cannot decide happens-before",
- "C38": "wall-clock deadlines under the real scheduler; the engine's virtual clock cannot witness 'returns on time'",
  "C39": "OS process supervision (fork/exec, signals); nothing is left to encode after stubbing the OS",
 }
 
